@@ -134,7 +134,7 @@ NUM = {"zero": 0.0, "one": 1.0, "tenth": 0.1, "half": 0.5, "ordinary": 12.345678
 GEO_REF = {"None": None, "utm": "+proj=utm +zone=32 +ellps=WGS84"}
 AUTHOR, AFFILIATION, SOURCE = "crv-author", "crv-affiliation", "crv-source"
 COMPONENTS = ["obstacle", "planning", "lanelet", "sign", "light", "intersection", "header", "numbers"]
-RUNS = ["obstacle", "small", "numbers"]      # TLC runs: "small" = planning, lanelet, sign, light, intersection, header
+RUNS = ["obstacle", "small", "numbers", "reuse"]      # TLC runs: "small" = planning, lanelet, sign, light, intersection, header
 _TABLE_FILE = os.path.join(tlc.OUT, "gen", "codec_tables.json")
 _tables = None
 
@@ -929,25 +929,75 @@ def _where(ex):
     return "%s@%s" % (type(ex).__name__, best) if best else type(ex).__name__
 
 
-def roundtrip(desc, d, fmt):
-    """-> dict(orig=leaves of the original objects, back=leaves read back or None, exc="" | "write" | "read",
-               why=exception summary, data=written bytes or None).  Exceptions of gamma / alpha propagate (driver bugs)."""
+TRANSLATION = (3.0, -2.0)          # lattice vector of the edit "translate"
+
+
+def apply_edit(sc, pps, desc, edited, edit):
+    """Edit the real objects IN PLACE so that they become what `edited` (= Codec!EditOf(desc, reuse), printed by TLC)
+    describes: objects whose id is new are built and added, objects whose id vanished are removed, a changed traffic light
+    offset is set; "translate" moves the lanelet network.  Trace_Codec checks alpha(edited objects) = Leaves(EditOf)."""
+    import numpy as np
+    if edit == "translate":
+        sc.lanelet_network.translate_rotate(np.array(TRANSLATION), 0.0)
+        return
+    def ids(lst):
+        return {x["id"] for x in lst}
+    for key, build, add in (("lanelets", g_lanelet, lambda o: sc.add_objects(o)),
+                            ("signs", g_sign, lambda o: sc.add_objects(o, set())),
+                            ("lights", g_light, lambda o: sc.add_objects(o, set())),
+                            ("inters", g_intersection, lambda o: sc.add_objects(o)),
+                            ("obstacles", g_obstacle, lambda o: sc.add_objects(o))):
+        for x in edited[key]:
+            if x["id"] not in ids(desc[key]):
+                add(build(x))
+    for o in desc["obstacles"]:
+        if o["id"] not in ids(edited["obstacles"]):
+            sc.remove_obstacle(sc.obstacle_by_id(o["id"]))
+    old = {t["id"]: t for t in desc["lights"]}
+    for t in edited["lights"]:
+        if t["id"] in old and t["off"] != old[t["id"]]["off"]:
+            light = [x for x in sc.lanelet_network.traffic_lights if x.traffic_light_id == t["id"]][0]
+            light.traffic_light_cycle.time_offset = t["off"]
+    for q in edited["pps"]:
+        if q["id"] not in ids(desc["pps"]):
+            pps.add_planning_problem(g_planning_problem(q, sc.lanelet_network))
+
+
+def roundtrip(desc, d, fmt, reuse=None, edited=None):
+    """-> dict(orig=leaves of the objects at the time of the last write, back=leaves read back or None,
+               exc="" | "write" | "read", why=exception summary, data=written bytes or None).
+    reuse = [{"edit", "w2"}]: write#1, edit the objects in place, write#2 with the SAME writer object (w2 = "scenario":
+    write_scenario_to_file); write#2 is read back.  Exceptions of gamma / alpha / apply_edit propagate (driver bugs)."""
     use_repo()
     _quiet()
     from commonroad.common.file_reader import CommonRoadFileReader
     from commonroad.common.file_writer import CommonRoadFileWriter, OverwriteExistingFile
     from commonroad.common.util import FileFormat
     sc, pps, wkw = gamma(desc)
-    orig = alpha(sc, pps, header_from=_WriterHeader(sc, wkw) if wkw else None)
     ff = FileFormat.XML if fmt == "xml" else FileFormat.PROTOBUF
-    path = os.path.join(_tmpdir(), "case" + (".xml" if fmt == "xml" else ".pb"))
-    if os.path.exists(path):
-        os.remove(path)
-    res = {"orig": orig, "back": None, "exc": "", "why": "", "data": None}
+    ext = ".xml" if fmt == "xml" else ".pb"
+    path, path1 = os.path.join(_tmpdir(), "case" + ext), os.path.join(_tmpdir(), "first" + ext)
+    for p_ in (path, path1):
+        if os.path.exists(p_):
+            os.remove(p_)
+    res = {"orig": None, "back": None, "exc": "", "why": "", "data": None}
     try:
         try:
-            CommonRoadFileWriter(sc, pps, decimal_precision=d, file_format=ff, **wkw).write_to_file(
-                path, OverwriteExistingFile.ALWAYS)
+            writer = CommonRoadFileWriter(sc, pps, decimal_precision=d, file_format=ff, **wkw)
+            if reuse:
+                writer.write_to_file(path1, OverwriteExistingFile.ALWAYS)
+        except Exception as ex:
+            res["orig"] = alpha(sc, pps, header_from=_WriterHeader(sc, wkw) if wkw else None)
+            res["exc"], res["why"] = "write", _where(ex)
+            return res
+        if reuse:
+            apply_edit(sc, pps, desc, edited[0], reuse[0]["edit"])
+        res["orig"] = alpha(sc, pps, header_from=_WriterHeader(sc, wkw) if wkw else None)
+        try:
+            if reuse and reuse[0]["w2"] == "scenario":
+                writer.write_scenario_to_file(path, OverwriteExistingFile.ALWAYS)
+            else:
+                writer.write_to_file(path, OverwriteExistingFile.ALWAYS)
             with open(path, "rb") as f:
                 res["data"] = f.read()
         except Exception as ex:
@@ -961,27 +1011,33 @@ def roundtrip(desc, d, fmt):
         res["back"] = alpha(sc2, pps2)
         return res
     finally:
-        if os.path.exists(path):
-            os.remove(path)
+        for p_ in (path, path1):
+            if os.path.exists(p_):
+                os.remove(p_)
 
 
 def roundtrip_event(case, fmt):
     desc, d, comp = case["desc"], case["d"], case["comp"]
-    r = roundtrip(desc, d, fmt)
+    reuse = case.get("reuse") or []
+    r = roundtrip(desc, d, fmt, reuse, case.get("edited"))
     back = project(r["orig"], r["back"], d) if r["back"] is not None else []
-    sig = fmt if not r["exc"] else "%s/%s" % (fmt, r["why"])      # the clause names the leaf; sig only the cause of a crash
-    return {"op": "xml_roundtrip" if fmt == "xml" else "pb_roundtrip", "sig": sig, "d": d, "desc": desc,
+    sig = fmt + ("@reused-writer" if reuse else "")               # the clause names the leaf; sig the setting ...
+    if r["exc"]:
+        sig += "/" + r["why"]                                     # ... and the cause of a crash
+    return {"op": "xml_roundtrip" if fmt == "xml" else "pb_roundtrip", "sig": sig, "d": d, "desc": desc, "reuse": reuse,
             "orig": as_orig(r["orig"]), "back": back, "exc": r["exc"]}
 
 
 def xsd_case_event(case):
     """None when the writer produced no document (a crash of the writer is C01's clause Total/write, not C03's)"""
-    r = roundtrip(case["desc"], case["d"], "xml")
+    reuse = case.get("reuse") or []
+    r = roundtrip(case["desc"], case["d"], "xml", reuse, case.get("edited"))
     if r["exc"] == "write":
         return None
-    ev = xsd_event(r["data"], "xsd", "ok" if r["exc"] == "" else "exc")
+    sig = "xsd" + ("@reused-writer" if reuse else "")
+    ev = xsd_event(r["data"], sig, "ok" if r["exc"] == "" else "exc")
     if r["exc"]:
-        ev["sig"] = "xsd/%s" % r["why"]
+        ev["sig"] = "%s/%s" % (sig, r["why"])
     return ev
 
 
@@ -1003,7 +1059,7 @@ def model_check(ctx, schema_only=False):
     _parallel(jobs)
 
 
-def gen_cases(ctx, fmt, quota=False):
+def gen_cases(ctx, fmt, quota=False, full_files_only=False):
     """All cases of the per-component GEN runs the spec declares expressible in `fmt`, plus the seeded mixed draw."""
     shutil.rmtree(os.path.join(tlc.OUT, "codec_tmp"), ignore_errors=True)       # leftovers of an interrupted run
     suffix = "_t" if ctx.thorough else ""
@@ -1022,6 +1078,9 @@ def gen_cases(ctx, fmt, quota=False):
     check_tables(table, ctx.notes)
     total = len(cases)
     cases = [c for c in cases if c[fmt]]
+    if full_files_only:     # C03: write_scenario_to_file writes no planning problem - outside the schema by construction
+        cases = [c for c in cases if not (c["reuse"] and c["reuse"][0]["w2"] == "scenario")]
+    ctx.extra["cases_with_reused_writer"] = sum(1 for c in cases if c["reuse"])
     if quota:          # cases that trigger a listed known finding only inside the small family the spec designates
         n = len(cases)
         cases = [c for c in cases if c["q"]]
@@ -1036,7 +1095,7 @@ def gen_cases(ctx, fmt, quota=False):
 
 
 def nontrivial(case):
-    return json.dumps([case["d"], case["desc"]], sort_keys=True)
+    return json.dumps([case["d"], case["desc"], case.get("reuse") or []], sort_keys=True)
 
 
 _NOT_CARRIED_HINT = ("isNone", "firstOccurrence", "element.id", "static", "prediction.shape")
